@@ -1284,6 +1284,9 @@ def c14(run):
 @check("C29")
 def c29(run):
     run.trace_leg("load", ["machine", "kind=load"], verdict=CONF + ["newok"])
+    # MC + RP: the statement of C29 on Machine!LoadBlocks for every object of one or two blocks of a small universe, each
+    # case then performed with the real load_obj_file and validated
+    run.rp_leg("rp_load", "MC_Load", "MC_Load.cfg", "load", "MC_Load_ops.ndjson", verdict=CONF + ["newok"], workers=8)
     return run.finish(
         rule="new simulators under Known/Seeded/Unseeded initialization (header = full memory as segments, checked by "
              "NewOK against the OS object image, the zeroed I/O page and the fill rule), then loads of generated "
